@@ -16,7 +16,7 @@ from .common import raising_site
 from ndn.encoding import make_interest, make_data, parse_interest, parse_data, MetaInfo, InterestParam, Name
 from ndn.security.validator.known_key_validator import (verify_rsa, verify_ecdsa, verify_hmac, verify_ed25519,
                                                          RsaChecker, EccChecker, HmacChecker, Ed25519Checker)
-from ndn.security.validator.digest_validator import sha256_digest_checker, params_sha256_checker
+from ndn.security.validator.digest_validator import sha256_digest_checker, params_sha256_checker, union_checker
 from ndn.app_support.security_v2 import self_sign
 
 LEVEL = 'fault_enumeration'
@@ -27,15 +27,18 @@ RULE = ('signed Data/Interest from the real encoder x matching verifiers (verify
         'mutation kind, region of the mutated byte); non-trivial = a verifier verdict was obtained on a mutant'
         '; signed Interests with the parameters digest mid-name and an implicit digest last')
 
-SIGNED_KINDS = ['digest', 'hmac', 'rsa', 'ecdsa256', 'ecdsa384', 'ecdsa521', 'ed25519']
+SIGNED_KINDS = ['digest', 'hmac', 'rsa', 'ecdsa256', 'ecdsa384', 'ecdsa521', 'ed25519', 'null', 'var']
+
+
+_LOOP = []
 
 
 def run_sync(coro):
-    try:
-        coro.send(None)
-    except StopIteration as e:
-        return e.value
-    raise RuntimeError('validator suspended')
+    """Run a validator coroutine to completion (on a private event loop: a validator may legitimately suspend)."""
+    if not _LOOP:
+        import asyncio
+        _LOOP.append(asyncio.new_event_loop())
+    return _LOOP[0].run_until_complete(coro)
 
 
 def verifiers_for(rng, sinfo, cert_wire=None):
@@ -67,6 +70,13 @@ def verifiers_for(rng, sinfo, cert_wire=None):
         out.append(('verify_ed25519', lambda n, s: verify_ed25519(pk, s), True))
         v = Ed25519Checker.from_key(kn, sinfo['pub'])
         out.append(('Ed25519Checker.from_key', lambda n, s: run_sync(v(n, s)), True))
+    # the shipped combinator: every member must accept (sha256_digest_checker has no opinion on other signature types)
+    for label, fn, strict in list(out):
+        if label.endswith('.from_key'):
+            member = {'HmacChecker.from_key': lambda: HmacChecker.from_key(kn, sinfo['key']), 'RsaChecker.from_key': lambda: RsaChecker.from_key(kn, sinfo['pub']),
+                      'EccChecker.from_key': lambda: EccChecker.from_key(kn, sinfo['pub']), 'Ed25519Checker.from_key': lambda: Ed25519Checker.from_key(kn, sinfo['pub'])}[label]()
+            u = union_checker(sha256_digest_checker, member)
+            out.append((f'union_checker(digest,{label})', lambda n, s, u=u: run_sync(u(n, s)), True))
     return out
 
 
@@ -196,6 +206,18 @@ def check_packet(ctx, rng, is_data, kind, content_len, mut_budget):
     tr = list(gen.truncations(wire))
     muts += tr if len(tr) < 80 else rng.sample(tr, 80)
     muts += list(gen.structural_mutants(rng, wire, limit=60))
+    # the SignatureValue element removed / emptied / cut by one octet (enclosing length recomputed)
+    try:
+        b0, vs0, ve0 = rc.outer(wire, 6 if is_data else 5)
+        kids = rc.children(b0, vs0, ve0)
+        svk = [k_ for k_ in kids if k_[0] == (0x17 if is_data else 0x2e)]
+        if svk:
+            t_, ts_, vs_, ve_ = svk[-1]
+            head, tail = b0[vs0:ts_], b0[ve_:ve0]
+            for lab, repl in (('drop-sig-value', b''), ('empty-sig-value', rc.enc_tlv(t_, b'')), ('short-sig-value', rc.enc_tlv(t_, b0[vs_:ve_ - 1] if ve_ > vs_ else b'\x00'))):
+                muts.append((lab, rc.enc_tlv(6 if is_data else 5, head + repl + tail)))
+    except (rc.Reject, KeyError):
+        pass
     # splice: signature value of another packet signed by the same signer
     try:
         other_wire = bytes(make_data(comps, MetaInfo(), gen.rand_bytes(rng, 5), signer)) if is_data else \
@@ -207,7 +229,8 @@ def check_packet(ctx, rng, is_data, kind, content_len, mut_budget):
     except Exception:   # noqa
         pass
     if mut_budget is not None and len(muts) > mut_budget:
-        muts = rng.sample(muts, mut_budget)
+        keep = [m_ for m_ in muts if m_[0].endswith('sig-value') or m_[0] == 'splice-sig']
+        muts = keep + rng.sample([m_ for m_ in muts if m_ not in keep], max(0, mut_budget - len(keep)))
     for label, m in muts:
         if m == wire:
             continue
